@@ -606,7 +606,7 @@ def run(tier, seed):
                 t, rep = run_tree_case(chk, roots, [], [d + f], WITNESS_CONFIGS, lk, "single-file", keep_root=root)
                 terms.append(t)
                 reps.append(rep)
-        for _ in range(8000 if thorough else 260):
+        for _ in range(5000 if thorough else 260):
             dirs, files = gen_tree(rng)
             root = roots.new()
             lk = gen_lookups(rng, root, dirs, files, 14)
@@ -618,7 +618,7 @@ def run(tier, seed):
         for i in bad[:10]:
             chk.disagree("Finder model != ComponentsFileSystemFinder.find/list", reps[i])
         # ---- V, J ----
-        run_valid_cases(chk, roots, 4000 if thorough else 220, 40)
+        run_valid_cases(chk, roots, 3000 if thorough else 220, 40)
         run_sj_cases(chk, 7 if thorough else 6, 1500 if thorough else 300)
     finally:
         ov.disable()
